@@ -1,0 +1,1 @@
+//! Verification hooks: opt (cfg `rten_verif`).
